@@ -78,6 +78,7 @@ def dispatch (line : String) : String :=
   | "assign" :: rest => handleAssign rest
   | "spantree" :: rest => handleSpanTree rest
   | "mono" :: rest => handleMono rest
+  | "monoop" :: rest => handleMonoOp rest
   | _ => "bad-op"
 
 partial def loop (h : IO.FS.Stream) (out : IO.FS.Stream) : IO Unit := do
